@@ -166,8 +166,8 @@ def coq_make(targets, prop, timeout=3000):
     Makefile (coq/Makefile.<prop>: lib + the property's directory + imported ones). Incremental."""
     with locked("coq"):
         coq_prepare(prop)
-        rc, o = sh(["make", "-f", "Makefile." + prop, "-j%d" % NCPU] + list(targets), cwd=COQ, timeout=timeout,
-                   mem_gb=COQ_MEM_GB)
+        rc, o = sh(["make", "-f", "Makefile." + prop, "-j%d" % NCPU, "COQC=timeout 2400 coqc"] + list(targets), cwd=COQ,
+                   timeout=timeout, mem_gb=COQ_MEM_GB)
     return rc == 0, o
 
 
